@@ -1,5 +1,5 @@
 """Property registry: Coq target, K function, evidence text."""
-from . import props_ledger as PL, props_ledger2 as PL2
+from . import props_ledger as PL, props_ledger2 as PL2, props_dsl as PD
 
 def spec(pid, k, rule, need_cli=False, not_proved="", trusted_extra=None, assumptions=None):
     return {"pid": pid, "target": "Props/P_%s.vo" % pid, "vfile": "Props/P_%s.v" % pid, "module": "Props.P_%s" % pid,
@@ -25,4 +25,6 @@ PROPS = {
     "C10": spec("C10", PL2.k_c10, LEDGER_RULE + VAR_RULE),
     "C11": spec("C11", PL2.k_c11, LEDGER_RULE + VAR_RULE),
     "C12": spec("C12", PL2.k_c12, LEDGER_RULE + VAR_RULE),
+    "C13": spec("C13", PD.k_c13, "DSL texts: 40 hand-written PEG corner cases; then for each random transaction list (1-6 lines, all seven kinds, ISO currencies, keyword-like tickers) its plain rendering, a rendering with random layout (blank/comment lines, spaces/tabs, keyword/ticker/currency case, explicit GBP / zero clause, trailing comments, LF/CRLF/CR, missing final newline) and a single-token corruption; distinct non-trivial = distinct decorated or corrupted texts"),
+    "C14": spec("C14", PD.k_c14, "API-level transaction lists of all seven kinds: decimals of scale 0..28 up to 2^96-1, every ISO-4217 code, zero and non-zero optional clauses; every tenth case also compares the reports of the original, its DSL and its JSON rendering; distinct non-trivial = distinct lists"),
 }
